@@ -5,8 +5,15 @@ from .oracle import Oracle, bits, mask
 
 def table_battery(battery):
     def run(concepts, case):
+        keep = B.decoys(concepts, case['objects'], case['properties'], case['table'], battery)   # noqa: F841
         ctx, orc = B.make(concepts, case)
-        return battery(ctx, orc)
+        fails = battery(ctx, orc)
+        if not fails and case.get('probe'):
+            pc = B.probe_case(case)
+            if pc is not None:
+                pctx, porc = B.make(concepts, pc)
+                fails += [f'(probe table for {case.get("side")} of {case.get("labels")}) {f}' for f in battery(pctx, porc)]
+        return fails
     return run
 
 
@@ -15,6 +22,17 @@ def derivation(concepts, case):
     fails = B.b01(ctx, orc, queries=[(case['side'], case['labels'])]) if case.get('labels') is not None else []
     if orc.n <= 6 and orc.m <= 6:
         fails += B.b01(ctx, orc)
+    if not fails and case.get('probe') and case.get('labels'):
+        # the same query on a table where every member of the query matters (co-nominal scale): a kernel that
+        # skips or drops a member shows there even if the solver's table happens to mask it
+        k = len(case['objects']) if case['side'] == 'intension' else len(case['properties'])
+        objs = [f'o{i}' for i in range(k)]
+        props = [f'p{j}' for j in range(k)]
+        table = [tuple(i != j for j in range(k)) for i in range(k)]
+        probe = {'objects': objs, 'properties': props, 'table': table}
+        pctx, porc = B.make(concepts, probe)
+        fails += [f'(co-nominal {k}x{k} probe table) {f}'
+                  for f in B.b01(pctx, porc, queries=[(case['side'], case['labels'])])]
     return fails
 
 
